@@ -1,3 +1,194 @@
-(* C29 — Send results are aligned, ordered and idempotent (placeholder while the harness is brought up). *)
-From WK Require Import Base.Base Model.ChanAppend Model.ChanAppend_C29.
+(* C29 — Send results are aligned, ordered and idempotent
+   (internal/runtime/channelappend).
+
+   Pure cores (Model/ChanAppend.v, tied to the code by exports on every run):
+   newIdempotentAppendBatch / expandCompletions / appendResultCompletions /
+   activeAppendItems, the per-channel writer's sequencing and reorder buffer.
+   Pipeline: [reach s0 hw limit evs] is the state of one channel's append
+   pipeline after ANY interleaving [evs] of submissions, effect issues, effect
+   runs and completion applications, against ANY appender / idempotency ports
+   satisfying the appender contract ([append_contract], [lookup_contract]); the
+   hash functions are arbitrary. *)
+From WK Require Import Base.Base Gen.Consts_C29 Model.ChanAppend Model.ChanAppend_C29
+     Proof.ChanAppend_coalesce Proof.ChanAppend_expand Proof.ChanAppend_writer
+     Proof.ChanAppend_run Proof.ChanAppend_pipeline.
+From Coq Require Import Sorted Permutation.
 Open Scope N_scope.
+
+(* ---- aligned: the coalescer ------------------------------------------------------------------- *)
+
+(* for ARBITRARY hash functions the coalesced batch is a sub-sequence [pos] of the
+   items; every item's owner slot holds the item itself or an EARLIER item that
+   is the same logical send, in which case the item carries both key fields *)
+Theorem c29_coalesce_aligned : forall hashf fp items,
+  exists pos, coalesced items (newIdempotentAppendBatch hashf fp items) pos.
+Proof. exact nb_coalesced. Qed.
+Print Assumptions c29_coalesce_aligned.
+
+(* hash / fingerprint collisions can never merge different sends: two items share
+   an owner only if they are the same (uid, client number, payload) and keyed *)
+Theorem c29_coalesce_sound : forall hashf fp items i j,
+  (i < j)%nat -> (j < length items)%nat ->
+  let b := newIdempotentAppendBatch hashf fp items in
+  owner_of b i = owner_of b j ->
+  cmdat items i = cmdat items j /\ keyed (cmdat items i) = true /\ keyed (cmdat items j) = true.
+Proof. exact nb_sound. Qed.
+Print Assumptions c29_coalesce_sound.
+
+(* expandCompletions: one completion per original item, in its own position,
+   carrying its owner's result; only the owner's own position stays committed *)
+Theorem c29_expand_aligned : forall items b pos unique,
+  coalesced items b pos -> map cp_item unique = ib_items b ->
+  length (expandCompletions b unique) = length items
+  /\ forall i, (i < length items)%nat ->
+       nth i (expandCompletions b unique) dflt_comp = expanded_at items b pos unique i.
+Proof. exact expand_aligned. Qed.
+Print Assumptions c29_expand_aligned.
+
+(* appendResultCompletions: one completion per item whatever the result vector's length *)
+Theorem c29_result_completions_aligned : forall items res,
+  map cp_item (appendResultCompletions items res) = items
+  /\ forall i it, nth_error items i = Some it ->
+       nth_error (appendResultCompletions items res) i = Some (arc_one it (nth_error res i)).
+Proof. intros items res. split; [apply arc_items|apply arc_nth_error]. Qed.
+Print Assumptions c29_result_completions_aligned.
+
+(* activeAppendItems: the live items in order + one error completion per inactive item *)
+Theorem c29_active_split : forall items, activeAppendItems items = activeAppendItems_spec items.
+Proof. exact activeAppendItems_correct. Qed.
+Print Assumptions c29_active_split.
+
+(* ---- ordered completion drain ------------------------------------------------------------------- *)
+
+(* ANY arrivals (duplicated, stale, not yet issued): deliveries carry consecutive
+   sequence numbers from the drain position, none twice, each an arrived event *)
+Theorem c29_drain_in_order_any : forall evs s out s',
+  entries_ok s -> apply_all s evs = (out, s') ->
+  consec (ws_drain s) (map ev_seq out)
+  /\ ws_drain s' = ws_drain s + N.of_nat (length out)
+  /\ entries_ok s'
+  /\ (forall e, In e out -> In e evs \/ In e (buffered s))
+  /\ NoDup (map ev_seq out).
+Proof. exact drain_in_order_any. Qed.
+Print Assumptions c29_drain_in_order_any.
+
+(* the completions of effects 0..n-1, each once, in ANY order: all are delivered,
+   in sequence order, each exactly once, and the buffer ends empty *)
+Theorem c29_drain_in_order : forall hw limit evs out s',
+  NoDup (map ev_seq evs) ->
+  (forall k, k < N.of_nat (length evs) -> In k (map ev_seq evs)) ->
+  apply_all (newChannelState hw limit) evs = (out, s') ->
+  map ev_seq out = ChanAppend_writer.nseq (length evs)
+  /\ Permutation out evs
+  /\ ws_drain s' = N.of_nat (length evs)
+  /\ ws_ready s' = None /\ ws_completed s' = [].
+Proof. exact drain_in_order_perm. Qed.
+Print Assumptions c29_drain_in_order.
+
+(* ---- one effect against contract-abiding ports --------------------------------------------------- *)
+
+Theorem c29_run_aligned : forall St do_append do_nlookup hashf fp slog Wf,
+  append_contract St do_append slog Wf -> lookup_contract St do_nlookup hashf slog ->
+  forall s e ev s',
+  Wf (slog s) -> LogOK (slog s) -> StronglySorted tag_lt (ef_items e) ->
+  run St do_append do_nlookup hashf fp s e = (ev, s') ->
+  exists ext, slog s' = slog s ++ ext /\ Wf (slog s') /\ ext_ok (slog s) ext (ef_items e)
+    /\ ev_seq ev = ef_seq e
+    /\ Permutation (map cp_item (ev_items ev)) (ef_items e)
+    /\ Forall (eorigin St do_append hashf slog (slog s) ext) (ev_items ev)
+    /\ (forall c1 c2, In c1 (ev_items ev) -> In c2 (ev_items ev) ->
+           cp_committed c1 = true -> cp_committed c2 = true -> tagof c1 < tagof c2 ->
+           r_seq (cp_res c1) < r_seq (cp_res c2)).
+Proof. exact run_spec. Qed.
+Print Assumptions c29_run_aligned.
+
+(* ---- the pipeline: aligned, idempotent, ordered ------------------------------------------------------
+   [reach St do_append do_nlookup hashf fp s0 hw limit evs]: the pipeline state after
+   the events [evs], from an empty channel log, with backlog limit [hw] and
+   AppendInflightBatchesPerChannel [limit]. *)
+
+(* every item receives at most one result, only submitted items do, and once
+   nothing is in flight every submitted item has received exactly one *)
+Theorem c29_exactly_one_result : forall St do_append do_nlookup hashf fp slog Wf,
+  append_contract St do_append slog Wf -> lookup_contract St do_nlookup hashf slog ->
+  forall s0 hw limit evs, slog s0 = [] -> Wf [] ->
+  let p := reach St do_append do_nlookup hashf fp s0 hw limit evs in
+  NoDup (map tagof (p_delivered p))
+  /\ (forall c, In c (p_delivered p) -> In (cp_item c) (p_submitted p))
+  /\ (quiescent St p = true -> Permutation (map cp_item (p_delivered p)) (p_submitted p)).
+Proof. exact pipeline_exactly_one. Qed.
+Print Assumptions c29_exactly_one_result.
+
+(* a successful result names a record of the channel log with the item's sender
+   and client number — its own record or, for a keyed item, the original one *)
+Theorem c29_success_backed : forall St do_append do_nlookup hashf fp slog Wf,
+  append_contract St do_append slog Wf -> lookup_contract St do_nlookup hashf slog ->
+  forall s0 hw limit evs c, slog s0 = [] -> Wf [] ->
+  let p := reach St do_append do_nlookup hashf fp s0 hw limit evs in
+  In c (p_delivered p) -> backed hashf (slog (p_store p)) c.
+Proof. exact pipeline_backed. Qed.
+Print Assumptions c29_success_backed.
+
+(* a retried send (same non-empty sender and client number) returns the original id and sequence ... *)
+Theorem c29_retry_same_result : forall St do_append do_nlookup hashf fp slog Wf,
+  append_contract St do_append slog Wf -> lookup_contract St do_nlookup hashf slog ->
+  forall s0 hw limit evs c1 c2, slog s0 = [] -> Wf [] ->
+  let p := reach St do_append do_nlookup hashf fp s0 hw limit evs in
+  In c1 (p_delivered p) -> In c2 (p_delivered p) ->
+  is_success (cp_res c1) = true -> is_success (cp_res c2) = true ->
+  keyed (ps_cmd (cp_item c1)) = true ->
+  same_key (ps_cmd (cp_item c1)) (ps_cmd (cp_item c2)) = true ->
+  r_id (cp_res c1) = r_id (cp_res c2) /\ r_seq (cp_res c1) = r_seq (cp_res c2).
+Proof. exact pipeline_retry_same_result. Qed.
+Print Assumptions c29_retry_same_result.
+
+(* ... without storing a second message *)
+Theorem c29_no_second_message : forall St do_append do_nlookup hashf fp slog Wf,
+  append_contract St do_append slog Wf -> lookup_contract St do_nlookup hashf slog ->
+  forall s0 hw limit evs r r', slog s0 = [] -> Wf [] ->
+  let log := slog (p_store (reach St do_append do_nlookup hashf fp s0 hw limit evs)) in
+  In r log -> In r' log -> keyed (pr_cmd r) = true -> same_key (pr_cmd r) (pr_cmd r') = true -> r = r'.
+Proof. exact pipeline_no_second_message. Qed.
+Print Assumptions c29_no_second_message.
+
+(* a reused key with a different payload (different non-zero payload hashes) never
+   yields a successful message next to the original one *)
+Theorem c29_reuse_rejected : forall St do_append do_nlookup hashf fp slog Wf,
+  append_contract St do_append slog Wf -> lookup_contract St do_nlookup hashf slog ->
+  forall s0 hw limit evs c1 c2, slog s0 = [] -> Wf [] ->
+  let p := reach St do_append do_nlookup hashf fp s0 hw limit evs in
+  In c1 (p_delivered p) -> In c2 (p_delivered p) ->
+  is_success (cp_res c1) = true ->
+  keyed (ps_cmd (cp_item c1)) = true ->
+  same_key (ps_cmd (cp_item c1)) (ps_cmd (cp_item c2)) = true ->
+  hashf (c_pay (ps_cmd (cp_item c1))) <> hashf (c_pay (ps_cmd (cp_item c2))) ->
+  hashf (c_pay (ps_cmd (cp_item c1))) <> 0 -> hashf (c_pay (ps_cmd (cp_item c2))) <> 0 ->
+  is_success (cp_res c2) = false.
+Proof. exact pipeline_reuse_rejected. Qed.
+Print Assumptions c29_reuse_rejected.
+
+(* default configuration (at most one append in flight per channel): committed
+   completions get strictly increasing sequences in submission order *)
+Theorem c29_seq_increasing_committed : forall St do_append do_nlookup hashf fp slog Wf,
+  append_contract St do_append slog Wf -> lookup_contract St do_nlookup hashf slog ->
+  forall s0 hw limit evs c1 c2, slog s0 = [] -> Wf [] -> (limit <= 1)%Z ->
+  let p := reach St do_append do_nlookup hashf fp s0 hw limit evs in
+  In c1 (p_delivered p) -> In c2 (p_delivered p) ->
+  cp_committed c1 = true -> cp_committed c2 = true -> tagof c1 < tagof c2 ->
+  r_seq (cp_res c1) < r_seq (cp_res c2).
+Proof. exact pipeline_committed_increasing. Qed.
+Print Assumptions c29_seq_increasing_committed.
+
+(* ... and when a failed append commits nothing, ALL new messages (successes whose
+   log record was appended for that very submission) are ordered.  Without
+   [atomic_failures] the statement is false: c29_seq_increasing_refuted (C29-K2). *)
+Theorem c29_seq_increasing : forall St do_append do_nlookup hashf fp slog Wf,
+  append_contract St do_append slog Wf -> lookup_contract St do_nlookup hashf slog ->
+  forall s0 hw limit evs c1 c2, slog s0 = [] -> Wf [] -> (limit <= 1)%Z ->
+  atomic_failures St do_append slog ->
+  let p := reach St do_append do_nlookup hashf fp s0 hw limit evs in
+  In c1 (p_delivered p) -> In c2 (p_delivered p) ->
+  is_fresh St slog p c1 -> is_fresh St slog p c2 -> tagof c1 < tagof c2 ->
+  r_seq (cp_res c1) < r_seq (cp_res c2).
+Proof. exact pipeline_seq_increasing. Qed.
+Print Assumptions c29_seq_increasing.
